@@ -365,7 +365,7 @@ func c13Units(tier string) []Unit {
 		fb := behs
 		if f.name == "positional-chain" || f.name == "decorators" || !q {
 			// a panic whose value is itself an error wrapping a dig error
-			fb = append(append([][]u.Beh{}, behs...), []u.Beh{u.BehPanicDigErr})
+			fb = append(append([][]u.Beh{}, behs...), []u.Beh{u.BehPanicDigErr}, []u.Beh{u.BehPanicWrapsPanicErr})
 		}
 		for _, plan := range faultPlans(f.faulty, fb, false) {
 			for _, rec := range []bool{false, true} {
